@@ -147,8 +147,18 @@ def make_spec(case):
         spec["trigger"] = "init/" + trig
     else:
         trig = str(rng.choice(["radius", "target", "feas", "callback",
-                               "maxfev", "maxiter"]))
-        if trig == "radius":
+                               "maxfev", "maxiter", "hugeradius"],
+                              p=[0.16, 0.16, 0.16, 0.16, 0.16, 0.16, 0.04]))
+        if trig == "hugeradius":
+            # the interpolation system overflows inside the main loop: a
+            # linear algebra error (status -2) is never a success
+            o["radius_init"] = float(10.0 ** rng.uniform(75, 150))
+            o.pop("radius_final", None)
+            o["maxfev"] = 200
+            if spec.get("bounds"):
+                spec.pop("bounds")
+                spec["x0_where"] = None
+        elif trig == "radius":
             o["radius_final"] = o.get("radius_init", 1.0) * float(
                 10.0 ** rng.uniform(-3, -0.5))
             o["maxfev"] = 600
